@@ -4,6 +4,8 @@ open Biogo.Properties.C16
 #print axioms piles_are_components
 #print axioms insertion_order_irrelevant
 #print axioms components_unique
+#print axioms insertion_order_irrelevant_intervals
+#print axioms intervals_unique
 #print axioms every_feature_once
 #print axioms mate_intact
 #print axioms duplicate_rejected
